@@ -20,14 +20,24 @@ Where a clause is false of the code as it exists the full statement is kept as a
 `def … : Prop`, with its negation proved from a concrete witness and the strongest
 statement that holds next to it:
 * `NilIffEqual` (a DynamicPseudoType input gets a conversion from unifyAllAsDynamic);
-* `ConvsYieldUnified`, `SafeConvsTotal`, `NoPanicApplied` — ONE defect: the closure
-  composed by unifyTuplesAsList / unifyObjectsAsMaps applies its second conversion to the
-  original value instead of the output of the first (wrong type / error in safe mode /
-  panic); the `_partial` theorems cover every slot that holds what
-  `GetConversion[Unsafe](input, result)` offers, i.e. all but the composed closures;
 * `UnsafeOfSafe` (placeholders; C08's witness), with the preference loop (any depth), the
   lists that go straight to it, and the flat types (any depth) proved;
 * `SortVisitsAll` (the preference relation has cycles; sortTypes then drops candidates).
+
+The clauses about APPLIED conversions — `ConvsYieldUnified`, `SafeConvsTotal`,
+`NoPanicApplied` — were false of the code up to /repo df9d7d3: the closure composed by
+unifyTuplesAsList / unifyObjectsAsMaps applied its second conversion to the original value
+instead of the output of the first (wrong type / error in safe mode / panic; three
+`_counterexample` theorems stood here).  Since that repair the closure is the composition
+of two conversions `GetConversion[Unsafe]` offers (`convs_composed_steps`), and the clauses
+are proved for EVERY slot `unify` returns (`…_slots_partial`) under side conditions that
+are stated explicitly: the type each step converts to is placeholder-free
+(`stepTargets`; the model cannot exclude a placeholder in the intermediate list / map
+type for an arbitrary `Env.unify`), and the value handed from the first step to the
+second is well-formed (resp. wholly known) — C08 proves the TYPE of a conversion's outcome
+but not that the outcome is a well-formed value again.  The former witnesses are kept as
+`…_witness_fixed` (and as harness cases that must pass); the full statements stay as
+`def`s: not proved in that generality, searched by the harness on every run.
 -/
 import CtyModel.Lemmas.UnifyTyLaws
 import CtyModel.Lemmas.UnifyProps
@@ -172,8 +182,9 @@ example : SafeBuilt (Env.std Env.simple) (.plan (.wrap .string .boolToStr)) :=
 /-! ## Each returned conversion yields a value of the unified type -/
 
 /-- Full statement of the clause "each returned conversion applied to any value of its
-input type yields a value of the unified type", for placeholder-free types: FALSE of
-the code — see `convs_yield_unified_counterexample`. -/
+input type yields a value of the unified type", for placeholder-free types.  Not proved in
+this generality (see the header): `convs_yield_unified_slots_partial` is the statement
+with its two side conditions; the harness judges the clause on every applied conversion. -/
 def ConvsYieldUnified : Prop :=
   ∀ (E : Env) (fuel fuel' : Nat) (uns : Bool) (types : List Ty) (t : Ty) (cs : Convs) (i : Nat) (c : UConv) (v r : Value),
     UnifyLaws E → (∀ ty ∈ types, plainTy ty = true) → plainTy t = true →
@@ -220,51 +231,95 @@ theorem convs_yield_unified_dynamic (E : Env) (fuel : Nat) (v : Value) :
     applyU E fuel .constDyn v = .ok (Value.unknown .dyn) ∧ yieldsUnified .dyn (Value.unknown .dyn) = true :=
   ⟨rfl, by decide⟩
 
-/-- the witness (safe mode, placeholder-free): `Unify([tuple(tuple(bool)), tuple(tuple(string)),
-list(list(string))])` is `list(list(string))`; the conversion returned for the first input
-is the closure composed by unifyTuplesAsList, whose second step is applied to the
-ORIGINAL tuple value: on `((true))` it returns `[[true]] : list(list(bool))` — a value of
-another type than the unified one. -/
+/-- What the slots of tuples among lists / objects among maps hold (the others are direct,
+`convs_direct_of_kind`): the direct conversion; or the conversion to `mid` — the list / map
+type the tuples / objects unify to on their own — alone, where `mid` already is the
+result; or the closure composed of `GetConversion[Unsafe](input, mid)` and
+`GetConversion[Unsafe](mid, result)`, in this order. -/
+theorem convs_composed_steps (E : Env) (fuel : Nat) (uns : Bool) (types : List Ty) (t ty : Ty) (cs : Convs)
+    (i : Nat) (c : UConv) (h : unifyF E fuel uns types = .ok (some (t, cs))) (hi : types[i]? = some ty)
+    (hc : cs[i]? = some (some c)) (ht : t.isDyn = false) :
+    slotOf E uns t ty = some (some c) ∨
+    ∃ mid f, structColl ty mid t = true ∧ slotOf E uns mid ty = some (some f) ∧
+      ((c = f ∧ (mid.equals t = true ∨ mid = t)) ∨
+       ∃ s, c = .andThen (some f) s ∧ slotOf E uns t mid = some (some s)) := by
+  obtain ⟨c', hc', hrel⟩ := (unifyF_slots E fuel uns types t cs h).2 i ty hi
+  rw [hc] at hc'; simp only [Option.some.injEq] at hc'; subst hc'
+  rcases slotRel_cases hrel with hd | ⟨hdyn, _⟩ | hm
+  · exact .inl hd
+  · subst hdyn; simp [Ty.isDyn] at ht
+  · exact .inr hm
+
+/-- The composed closure hands the OUTPUT of its first step to the second (unify.go since
+/repo df9d7d3: `out, err := tupleConv(in); …; return listConv(out)`) … -/
+theorem composed_applies_second_to_output (E : Env) (fuel : Nat) (f s : UConv) (v out : Value)
+    (h : applyU E fuel f v = .ok out) : applyU E fuel (.andThen (some f) s) v = applyU E fuel s out :=
+  applyU_andThen h
+
+/-- … and stops at the first step's error (`if err != nil { return out, err }`). -/
+theorem composed_stops_at_first_error (E : Env) (fuel : Nat) (f s : UConv) (v : Value) (e : String)
+    (h : applyU E fuel f v = .err e) : applyU E fuel (.andThen (some f) s) v = .err e := by
+  rw [applyU_andThen_stop (by simp [h]), h]
+
+/-- The composed closure yields a value of the unified type: first step a direct slot
+input type → `mid`, second a direct slot `mid` → result, both targets placeholder-free
+and well-formed, the intermediate value well-formed; either mode, any depth. -/
+theorem convs_yield_unified_composed_partial (E : Env) (hU : UnifyLaws E) (fuel' : Nat) (uns : Bool)
+    (t mid : Ty) (f s : UConv) (v r : Value) (ht : plainTy t = true) (hm : plainTy mid = true)
+    (hf : slotOf E uns mid v.ty = some (some f)) (hs : slotOf E uns t mid = some (some s))
+    (hv : Value.wt v = true) (hout : ∀ out, applyU E fuel' f v = .ok out → Value.wt out = true)
+    (ha : applyU E fuel' (.andThen (some f) s) v = .ok r) : r.ty = t ∧ yieldsUnified t r = true := by
+  have hty := andThen_ty hU ht hm hf hs hv hout ha
+  exact ⟨hty, yieldsUnified_of_ty ht hty⟩
+
+/-- THE CLAUSE for every slot `unify` returns, direct or composed: applied to any
+well-formed value of its input type — known, unknown, null or marked, any depth — the
+outcome, if it is a value, has exactly the unified type.  Side conditions: the result type
+and the types the steps of the conversion convert to (`stepTargets`: read off the
+returned conversion; for a direct slot that is the result type alone) are well-formed
+and placeholder-free; for a composed closure the value its first step hands on is
+well-formed. -/
+theorem convs_yield_unified_slots_partial (E : Env) (hU : UnifyLaws E) (fuel fuel' : Nat) (uns : Bool)
+    (types : List Ty) (t : Ty) (cs : Convs) (i : Nat) (c : UConv) (v r : Value) (ht : plainTy t = true)
+    (h : unifyF E fuel uns types = .ok (some (t, cs))) (hc : cs[i]? = some (some c)) (hi : types[i]? = some v.ty)
+    (hv : Value.wt v = true) (hT : ∀ m ∈ stepTargets c, plainTy m = true)
+    (hout : ∀ f s out, c = .andThen (some f) s → applyU E fuel' f v = .ok out → Value.wt out = true)
+    (ha : applyU E fuel' c v = .ok r) : r.ty = t ∧ yieldsUnified t r = true := by
+  obtain ⟨c', hc', hrel⟩ := (unifyF_slots E fuel uns types t cs h).2 i v.ty hi
+  rw [hc] at hc'; simp only [Option.some.injEq] at hc'; subst hc'
+  have hty := slot_applied_ty hU ht hrel hv hT hout ha
+  exact ⟨hty, yieldsUnified_of_ty ht hty⟩
+
+/-- the former witness (safe mode, placeholder-free): `Unify([tuple(tuple(bool)),
+tuple(tuple(string)), list(list(string))])` is `list(list(string))`; the conversion returned
+for the first input is the closure composed by unifyTuplesAsList.  Before /repo df9d7d3 it
+returned `[[true]] : list(list(bool))` on `((true))`; now `[["true"]]` of the unified type. -/
 def yieldWitnessTys : List Ty := [.tuple [.tuple [.bool]], .tuple [.tuple [.string]], .list (.list .string)]
 def yieldWitnessV : Value := ⟨.tuple [.tuple [.bool]], .seq [.seq [.b true]]⟩
 def yieldWitnessConv : UConv :=
-  .thenOrig
+  .andThen
     (some (.plan (.wrap (.list (.tuple [.string]))
       (.tupToList [.wrap (.tuple [.string]) (.tupToTup [.wrap .string .boolToStr])] false))))
     (.plan (.wrap (.list (.list .string))
       (.collToList (.list .string) (.wrap (.list .string) (.tupToList [.nil] false)))))
 
-theorem convs_yield_unified_counterexample :
+theorem convs_yield_unified_witness_fixed :
     (unifyF (Env.std Env.simple) 3 false yieldWitnessTys).map (fun o => o.map fun r => (r.1, r.2[0]?)) =
       .ok (some (.list (.list .string), some (some yieldWitnessConv))) ∧
     applyU (Env.std Env.simple) 8 yieldWitnessConv yieldWitnessV =
-      .ok ⟨.list (.list .bool), .seq [.seq [.b true]]⟩ ∧
-    yieldsUnified (.list (.list .string)) ⟨.list (.list .bool), .seq [.seq [.b true]]⟩ = false :=
+      .ok ⟨.list (.list .string), .seq [.seq [.s "true"]]⟩ ∧
+    yieldsUnified (.list (.list .string)) ⟨.list (.list .string), .seq [.seq [.s "true"]]⟩ = true :=
   ⟨rfl, rfl, by decide⟩
 
-theorem convsYieldUnified_false : ¬ ConvsYieldUnified := by
-  intro h
-  obtain ⟨h1, h2, _⟩ := convs_yield_unified_counterexample
-  cases hu : unifyF (Env.std Env.simple) 3 false yieldWitnessTys with
-  | ok o =>
-    rw [hu] at h1
-    cases o with
-    | none => simp [Res.map] at h1
-    | some r =>
-      obtain ⟨t, cs⟩ := r
-      simp only [Res.map, Option.map_some, Res.ok.injEq, Option.some.injEq, Prod.mk.injEq] at h1
-      obtain ⟨rfl, hc⟩ := h1
-      have := h (Env.std Env.simple) 3 8 false yieldWitnessTys _ cs 0 yieldWitnessConv yieldWitnessV _
-        (unifyLaws_std _) (by decide) (by decide) hu hc rfl (by decide) h2
-      simp at this
-  | err _ => rw [hu] at h1; simp [Res.map] at h1
-  | panic _ => rw [hu] at h1; simp [Res.map] at h1
-  | unmodelled => rw [hu] at h1; simp [Res.map] at h1
+/-- non-vacuity of the side conditions on that witness -/
+example : (stepTargets yieldWitnessConv).all plainTy = true := by decide
 
 /-! ## Safe conversions never fail on known values -/
 
 /-- Full statement of the clause "for placeholder-free inputs the conversion … never
-fails in safe mode": FALSE of the code — see `safe_convs_total_counterexample`. -/
+fails in safe mode".  Not proved in this generality (see the header):
+`safe_convs_total_slots_partial` is the statement with its side conditions; the harness
+judges the clause on every applied conversion. -/
 def SafeConvsTotal : Prop :=
   ∀ (E : Env) (fuel fuel' : Nat) (types : List Ty) (t : Ty) (cs : Convs) (i : Nat) (c : UConv) (v : Value) (e : String),
     UnifyLaws E → SetLaws E → (∀ ty ∈ types, plainTy ty = true) → plainTy t = true →
@@ -292,44 +347,64 @@ theorem safe_convs_total_partial (E : Env) (hU : UnifyLaws E) (hS : SetLaws E) (
   | panic w => exact absurd hr (h.1 w)
   | unmodelled => exact .inr rfl
 
-/-- the witness (safe mode, placeholder-free, known value): `Unify([tuple(tuple(bool),
-tuple(string)), list(list(string))])` is `list(list(string))`, and the conversion returned
-for the tuple fails on `((true), ("a"))` — "element types must all match for conversion
-to list" — because its second step converts the original elements `(true)` and `("a")`
-separately, to `list(bool)` and `list(string)`. -/
+/-- THE CLAUSE for every slot safe unification returns, direct or composed: on a
+well-formed value of its input type without unknown parts (nulls and marks allowed, any
+depth) it never reports an error and never panics — the outcome is a value of the unified
+type, or the model's fuel ran out.  Side conditions as in
+`convs_yield_unified_slots_partial`; the value a composed closure's first step hands on
+is well-formed and without unknown parts too. -/
+theorem safe_convs_total_slots_partial (E : Env) (hU : UnifyLaws E) (hS : SetLaws E) (fuel fuel' : Nat)
+    (types : List Ty) (t : Ty) (cs : Convs) (i : Nat) (c : UConv) (v : Value) (ht : plainTy t = true)
+    (h : unify E fuel types = .ok (some (t, cs))) (hc : cs[i]? = some (some c)) (hi : types[i]? = some v.ty)
+    (hv : Value.wt v = true) (hk : Payload.whollyKnown v.v = true)
+    (hT : ∀ m ∈ stepTargets c, plainTy m = true)
+    (hout : ∀ f s out, c = .andThen (some f) s → applyU E fuel' f v = .ok out →
+      Value.wt out = true ∧ Payload.whollyKnown out.v = true) :
+    (∃ r, applyU E fuel' c v = .ok r ∧ r.ty = t) ∨ applyU E fuel' c v = .unmodelled := by
+  obtain ⟨c', hc', hrel⟩ := (unifyF_slots E fuel false types t cs h).2 i v.ty hi
+  rw [hc] at hc'; simp only [Option.some.injEq] at hc'; subst hc'
+  have hnb := slot_applied_NB hU hS (fuel := fuel') ht hrel hv hk hT hout
+  cases hr : applyU E fuel' c v with
+  | ok r => exact .inl ⟨r, rfl, slot_applied_ty hU ht hrel hv hT (fun f s out e h1 => (hout f s out e h1).1) hr⟩
+  | err e => exact absurd (hnb.2 e hr) (by simp)
+  | panic w => exact absurd hr (hnb.1 w)
+  | unmodelled => exact .inr rfl
+
+/-- … for the composed closure by itself: two direct slots in a row. -/
+theorem safe_convs_total_composed_partial (E : Env) (hU : UnifyLaws E) (hS : SetLaws E) (fuel' : Nat)
+    (t mid : Ty) (f s : UConv) (v : Value) (ht : plainTy t = true) (hm : plainTy mid = true)
+    (hf : slotOf E false mid v.ty = some (some f)) (hs : slotOf E false t mid = some (some s))
+    (hv : Value.wt v = true) (hk : Payload.whollyKnown v.v = true)
+    (hout : ∀ out, applyU E fuel' f v = .ok out → Value.wt out = true ∧ Payload.whollyKnown out.v = true) :
+    (∃ r, applyU E fuel' (.andThen (some f) s) v = .ok r ∧ r.ty = t) ∨
+      applyU E fuel' (.andThen (some f) s) v = .unmodelled := by
+  have hnb := andThen_NB hU hS (fuel := fuel') ht hm hf hs hv hk hout
+  cases hr : applyU E fuel' (.andThen (some f) s) v with
+  | ok r => exact .inl ⟨r, rfl, andThen_ty hU ht hm hf hs hv (fun out h1 => (hout out h1).1) hr⟩
+  | err e => exact absurd (hnb.2 e hr) (by simp)
+  | panic w => exact absurd hr (hnb.1 w)
+  | unmodelled => exact .inr rfl
+
+/-- the former witness (safe mode, placeholder-free, known value): `Unify([tuple(tuple(bool),
+tuple(string)), list(list(string))])` is `list(list(string))`.  Before /repo df9d7d3 the
+conversion returned for the tuple failed on `((true), ("a"))` — "element types must all
+match for conversion to list", its second step converting the original elements `(true)`
+and `("a")` separately; now it returns `[["true"], ["a"]]`. -/
 def totalWitnessTys : List Ty := [.tuple [.tuple [.bool], .tuple [.string]], .list (.list .string)]
 def totalWitnessV : Value := ⟨.tuple [.tuple [.bool], .tuple [.string]], .seq [.seq [.b true], .seq [.s "a"]]⟩
 def totalWitnessConv : UConv :=
-  .thenOrig
+  .andThen
     (some (.plan (.wrap (.list (.tuple [.string]))
       (.tupToList [.wrap (.tuple [.string]) (.tupToTup [.wrap .string .boolToStr]), .nil] false))))
     (.plan (.wrap (.list (.list .string))
       (.collToList (.list .string) (.wrap (.list .string) (.tupToList [.nil] false)))))
 
-theorem safe_convs_total_counterexample :
+theorem safe_convs_total_witness_fixed :
     (unify (Env.std Env.simple) 3 totalWitnessTys).map (fun o => o.map fun r => (r.1, r.2[0]?)) =
       .ok (some (.list (.list .string), some (some totalWitnessConv))) ∧
     applyU (Env.std Env.simple) 8 totalWitnessConv totalWitnessV =
-      .err "element types must all match for conversion to list" :=
+      .ok ⟨.list (.list .string), .seq [.seq [.s "true"], .seq [.s "a"]]⟩ :=
   ⟨rfl, rfl⟩
-
-theorem safeConvsTotal_false : ¬ SafeConvsTotal := by
-  intro h
-  obtain ⟨h1, h2⟩ := safe_convs_total_counterexample
-  cases hu : unify (Env.std Env.simple) 3 totalWitnessTys with
-  | ok o =>
-    rw [hu] at h1
-    cases o with
-    | none => simp [Res.map] at h1
-    | some r =>
-      obtain ⟨t, cs⟩ := r
-      simp only [Res.map, Option.map_some, Res.ok.injEq, Option.some.injEq, Prod.mk.injEq] at h1
-      obtain ⟨rfl, hc⟩ := h1
-      exact h (Env.std Env.simple) 3 8 totalWitnessTys _ cs 0 totalWitnessConv totalWitnessV _
-        (unifyLaws_std _) setLaws_simple_std (by decide) (by decide) hu hc rfl (by decide) (by decide) h2
-  | err _ => rw [hu] at h1; simp [Res.map] at h1
-  | panic _ => rw [hu] at h1; simp [Res.map] at h1
-  | unmodelled => rw [hu] at h1; simp [Res.map] at h1
 
 /-- non-vacuity of the partial theorems: a direct slot, a regular value, an outcome -/
 example : slotOf (Env.std Env.simple) false (.list .string) (.tuple [.bool, .string]) =
@@ -370,7 +445,7 @@ theorem no_panic_total (E : Env) (fuel : Nat) (uns : Bool) (types : List Ty)
 conversion ("We know the tuple conversion is not nil, because we went from tuple to
 list"): every composed slot has a non-nil first step. -/
 theorem no_panic_nil_call (E : Env) (fuel : Nat) (uns : Bool) (types : List Ty) (t : Ty) (cs : Convs) (i : Nat)
-    (s : UConv) (h : unifyF E fuel uns types = .ok (some (t, cs))) : cs[i]? ≠ some (some (.thenOrig none s)) := by
+    (s : UConv) (h : unifyF E fuel uns types = .ok (some (t, cs))) : cs[i]? ≠ some (some (.andThen none s)) := by
   intro hc
   have hs := unifyF_slots E fuel uns types t cs h
   have hi : i < types.length := by rw [← hs.1]; exact (List.getElem?_eq_some_iff.mp hc).1
@@ -382,8 +457,9 @@ theorem no_panic_nil_call (E : Env) (fuel : Nat) (uns : Bool) (types : List Ty) 
     simp at hp
 
 /-- Full statement for the RETURNED conversions: applied to a well-formed value of
-their input type they never panic.  FALSE of the code — see
-`no_panic_applied_counterexample`. -/
+their input type they never panic.  Not proved in this generality (values with unknown
+parts, placeholders in the types): `no_panic_applied_slots_partial` is what is proved; the
+harness applies every returned conversion and reports every panic. -/
 def NoPanicApplied : Prop :=
   ∀ (E : Env) (fuel fuel' : Nat) (uns : Bool) (types : List Ty) (t : Ty) (cs : Convs) (i : Nat) (c : UConv) (v : Value),
     UnifyLaws E → SetLaws E → unifyF E fuel uns types = .ok (some (t, cs)) → cs[i]? = some (some c) →
@@ -404,41 +480,49 @@ theorem no_panic_applied_partial (E : Env) (hU : UnifyLaws E) (hS : SetLaws E) (
   cases hr : apply E fuel' p v <;> simp [Res.isPanic]
   exact absurd hr (h _)
 
-/-- the witness: `Unify([tuple(), tuple(bool), list(dynamic)])` is `list(dynamic)`; the
-closure composed for the empty tuple applies its second step — list(bool) → list(dynamic),
-which for an empty collection asks `val.Type().ElementType()` — to the original empty
-TUPLE value: `ElementType` on a tuple type panics. -/
+/-- EVERY slot `unify` returns, direct or composed, either mode: applied to a well-formed
+value of its input type without unknown parts it does not panic (side conditions as in
+`safe_convs_total_slots_partial`). -/
+theorem no_panic_applied_slots_partial (E : Env) (hU : UnifyLaws E) (hS : SetLaws E) (fuel fuel' : Nat)
+    (uns : Bool) (types : List Ty) (t : Ty) (cs : Convs) (i : Nat) (c : UConv) (v : Value) (ht : plainTy t = true)
+    (h : unifyF E fuel uns types = .ok (some (t, cs))) (hc : cs[i]? = some (some c)) (hi : types[i]? = some v.ty)
+    (hv : Value.wt v = true) (hk : Payload.whollyKnown v.v = true)
+    (hT : ∀ m ∈ stepTargets c, plainTy m = true)
+    (hout : ∀ f s out, c = .andThen (some f) s → applyU E fuel' f v = .ok out →
+      Value.wt out = true ∧ Payload.whollyKnown out.v = true) : (applyU E fuel' c v).isPanic = false := by
+  obtain ⟨c', hc', hrel⟩ := (unifyF_slots E fuel uns types t cs h).2 i v.ty hi
+  rw [hc] at hc'; simp only [Option.some.injEq] at hc'; subst hc'
+  have hnb := (slot_applied_NB hU hS (fuel := fuel') ht hrel hv hk hT hout).1
+  cases hr : applyU E fuel' c v <;> simp [Res.isPanic]
+  exact absurd hr (hnb _)
+
+/-- … for the composed closure by itself: two direct slots in a row. -/
+theorem no_panic_applied_composed_partial (E : Env) (hU : UnifyLaws E) (hS : SetLaws E) (fuel' : Nat) (uns : Bool)
+    (t mid : Ty) (f s : UConv) (v : Value) (ht : plainTy t = true) (hm : plainTy mid = true)
+    (hf : slotOf E uns mid v.ty = some (some f)) (hs : slotOf E uns t mid = some (some s))
+    (hv : Value.wt v = true) (hk : Payload.whollyKnown v.v = true)
+    (hout : ∀ out, applyU E fuel' f v = .ok out → Value.wt out = true ∧ Payload.whollyKnown out.v = true) :
+    (applyU E fuel' (.andThen (some f) s) v).isPanic = false := by
+  have hnb := (andThen_NB hU hS (fuel := fuel') ht hm hf hs hv hk hout).1
+  cases hr : applyU E fuel' (.andThen (some f) s) v <;> simp [Res.isPanic]
+  exact absurd hr (hnb _)
+
+/-- the former witness: `Unify([tuple(), tuple(bool), list(dynamic)])` is `list(dynamic)`.
+Before /repo df9d7d3 the closure composed for the empty tuple applied its second step —
+list(bool) → list(dynamic), which for an empty collection asks
+`val.Type().ElementType()` — to the original empty TUPLE value and panicked; now that step
+gets the empty `list(bool)` the first step made, and returns it. -/
 def panicWitnessConv : UConv :=
-  .thenOrig (some (.plan (.wrap (.list .bool) (.emptyToList .bool))))
+  .andThen (some (.plan (.wrap (.list .bool) (.emptyToList .bool))))
     (.plan (.wrap (.list .dyn) (.collToList .dyn (.wrap .dyn .dynPass))))
 
-theorem no_panic_applied_counterexample :
+theorem no_panic_applied_witness_fixed :
     (unify (Env.std Env.simple) 3 [.tuple [], .tuple [.bool], .list .dyn]).map
         (fun o => o.map fun r => (r.1, r.2[0]?)) =
       .ok (some (.list .dyn, some (some panicWitnessConv))) ∧
-    applyU (Env.std Env.simple) 8 panicWitnessConv ⟨.tuple [], .seq []⟩ =
-      .panic "ElementType on non-collection" :=
-  ⟨rfl, rfl⟩
-
-theorem noPanicApplied_false : ¬ NoPanicApplied := by
-  intro h
-  obtain ⟨h1, h2⟩ := no_panic_applied_counterexample
-  cases hu : unify (Env.std Env.simple) 3 [.tuple [], .tuple [.bool], .list .dyn] with
-  | ok o =>
-    rw [hu] at h1
-    cases o with
-    | none => simp [Res.map] at h1
-    | some r =>
-      obtain ⟨t, cs⟩ := r
-      simp only [Res.map, Option.map_some, Res.ok.injEq, Option.some.injEq, Prod.mk.injEq] at h1
-      obtain ⟨rfl, hc⟩ := h1
-      have := h (Env.std Env.simple) 3 8 false _ _ cs 0 panicWitnessConv ⟨.tuple [], .seq []⟩
-        (unifyLaws_std _) setLaws_simple_std hu hc rfl (by decide)
-      rw [h2] at this
-      simp [Res.isPanic] at this
-  | err _ => rw [hu] at h1; simp [Res.map] at h1
-  | panic _ => rw [hu] at h1; simp [Res.map] at h1
-  | unmodelled => rw [hu] at h1; simp [Res.map] at h1
+    applyU (Env.std Env.simple) 8 panicWitnessConv ⟨.tuple [], .seq []⟩ = .ok ⟨.list .bool, .seq []⟩ ∧
+    yieldsUnified (.list .dyn) ⟨.list .bool, .seq []⟩ = true :=
+  ⟨rfl, rfl, by decide⟩
 
 example : (unifyF (Env.std Env.simple) 2 true [.object ["a"] [.string] [false], .tuple [.bool], .dyn]).isPanic = false :=
   no_panic _ 2 true _ (by decide)
